@@ -113,6 +113,8 @@ type Persist struct {
 	// Heard: every vote of another validator handed to the node, over all incarnations, interleaved with SignLog by Seq
 	Heard []HeardVote
 	seq   int
+	// DiscardABCIResponses: the node's storage.discard_abci_responses setting (only the last height's responses kept)
+	DiscardABCIResponses bool
 }
 
 func (p *Persist) nextSeq() int { p.seq++; return p.seq }
@@ -528,7 +530,7 @@ func Boot(p *Persist, armAt int) (n *PNode, crashed *CrashSignal, err error) {
 	}()
 	blockDB := &pdb{MemDB: p.BlockDB, c: n.C, name: "blockdb"}
 	stateDB := &pdb{MemDB: p.StateDB, c: n.C, name: "statedb"}
-	n.StateStore = sm.NewStore(stateDB, sm.StoreOptions{})
+	n.StateStore = sm.NewStore(stateDB, sm.StoreOptions{DiscardABCIResponses: p.DiscardABCIResponses})
 	n.BlockStore = store.NewBlockStore(blockDB)
 	state, err := n.StateStore.LoadFromDBOrGenesisDoc(p.GenDoc)
 	if err != nil {
